@@ -145,7 +145,7 @@ SPEC_FUNCS = {'dict_arrays_equal', 'is_namedtuple', 'is_function', 'uf', 'ghost_
               'unit', 'concat', 'nth', 'truthy', 'callable_', 'is_exact', 'dict_unchanged', 'list_unchanged',
               'fields_unchanged', 'none_', 'ghost', 'is_dict', 'is_list', 'is_tuple', 'is_set', 'bound_method',
               'isinstance_sym', 'enum', 'set_has', 'older', 'heap_unchanged', 'same_class', 'issubclass_of',
-              'setlen', 'str_', 'eq', 'ident', 'func', 'has_attr_decl', 'label_of', 'allowed'}
+              'setlen', 'str_', 'eq', 'ident', 'func', 'has_attr_decl', 'label_of', 'allowed', 'class_level_name', 'is_foreign'}
 
 
 class SpecMixin:
@@ -790,6 +790,30 @@ class SpecMixin:
     def sf_enum(self, st, node, env, cmod):
         a = self.sev(st, node.args[0], env, cmod)
         return a
+
+    def sf_is_foreign(self, st, node, env, cmod):
+        """is_foreign(x): x is an object whose class is not in the class table (a user-defined class or one of its
+        instances): its attributes are read from the heap, calling them is a call into unknown code"""
+        (a,) = self._args(st, node, env, cmod)
+        t = self.to_term(st, a)
+        return BoolTermV(AND(is_ref(t), r_of(t) >= I(self.index.first_free_id),
+                             z3.Select(st.CL, r_of(t)) >= I(self.index.first_free_id)))
+
+    def sf_class_level_name(self, st, node, env, cmod):
+        """class_level_name(obj, name): `name` is defined at class level (method, property, static/class method) by the
+        static class of obj, one of its bases or one of its subclasses in the class table -- getattr(obj, name) then does
+        not read the instance attribute"""
+        obj, name = self._args(st, node, env, cmod)
+        nm = s_of(self.to_term(st, name))
+        names = set()
+        ci = obj.cls if isinstance(obj, SV) else None
+        if ci is None:
+            return BoolTermV(FALSE)
+        for c in ([ci] if obj.exact else self.index.subclasses(ci)):
+            for k in c.mro:
+                if not k.external:
+                    names.update(k.methods.keys())
+        return BoolTermV(OR(*[nm == S(m) for m in sorted(names)]) if names else FALSE)
 
     def sf_bound_method(self, st, node, env, cmod):
         """bound_method(v, obj, 'name'): v is a method object bound to obj with that __name__"""
